@@ -47,6 +47,32 @@ class SymLabel:
             return True
         return SymBool(z3.Not(z3.And(self.ident == other.ident, self._same_neg(other))))
 
+    def _less(self, other):
+        # a total order: sign-prefixed labels first ('-' sorts before letters), then by identity
+        a = z3.BoolVal(self.neg) if isinstance(self.neg, bool) else self.neg
+        b = z3.BoolVal(other.neg) if isinstance(other.neg, bool) else other.neg
+        return z3.Or(z3.And(a, z3.Not(b)), z3.And(a == b, self.ident < other.ident))
+
+    def __lt__(self, other):
+        if not isinstance(other, SymLabel):
+            return NotImplemented
+        return SymBool(self._less(other))
+
+    def __gt__(self, other):
+        if not isinstance(other, SymLabel):
+            return NotImplemented
+        return SymBool(other._less(self))
+
+    def __le__(self, other):
+        if not isinstance(other, SymLabel):
+            return NotImplemented
+        return SymBool(z3.Not(other._less(self)))
+
+    def __ge__(self, other):
+        if not isinstance(other, SymLabel):
+            return NotImplemented
+        return SymBool(z3.Not(self._less(other)))
+
     def __hash__(self):
         return 0     # all labels collide: set/dict fall back to __eq__, which forks
 
